@@ -927,6 +927,8 @@ pub struct NetStats {
     pub datagrams: u64,
     /// Every frame the MainDevice transmitted (bounded)
     pub tx_log: Vec<Vec<u8>>,
+    /// The answer to each logged frame (same index)
+    pub rx_log: Vec<Vec<u8>>,
     pub malformed: Option<String>,
 }
 
@@ -1019,8 +1021,11 @@ impl Network {
     pub fn process(&mut self, frame: &[u8], now: u64) -> Option<Vec<u8>> {
         self.stats.frames += 1;
 
-        if self.log_frames && self.stats.tx_log.len() < 4096 {
+        let logged = self.log_frames && self.stats.tx_log.len() < 4096;
+
+        if logged {
             self.stats.tx_log.push(frame.to_vec());
+            self.stats.rx_log.push(Vec::new());
         }
 
         // Universal wire monitor (C04): every frame any check hands to the simulator
@@ -1262,6 +1267,10 @@ impl Network {
             out[off..off + len].copy_from_slice(&data);
             out[off + len..off + len + 2].copy_from_slice(&wkc.to_le_bytes());
             out[off - 8..off - 6].copy_from_slice(&adp.to_le_bytes());
+        }
+
+        if logged {
+            *self.stats.rx_log.last_mut().unwrap() = out.clone();
         }
 
         Some(out)
